@@ -99,6 +99,12 @@ type Env struct {
 	WriteTxClosed bool
 }
 
+// failing is set once a violation has been recorded: cleanup must then not wait for anything.
+var failing atomic.Bool
+
+// SetFailing marks the process as having recorded a violation.
+func SetFailing() { failing.Store(true) }
+
 // panicSeen is set when a panic of the code under test was recovered (locks may be left held).
 var panicSeen atomic.Bool
 
@@ -172,7 +178,7 @@ func (e *Env) Cleanup() {
 		defer func() { recover() }()
 		e.closeAll()
 	}()
-	if e.sawPanic {
+	if e.sawPanic || failing.Load() {
 		select {
 		case <-done:
 		case <-time.After(2 * time.Second):
